@@ -161,6 +161,16 @@ def gen_case(rng):
                 t = f"T_{'_'.join(p).replace('.', '_')}"
                 body += [["If", ["Defd", t]], ["Code"], ["Endif"], ["Def", t, "E"]]
             style = rng.random()
+            # a header that may take part in an include cycle (back edge, or a computed include whose
+            # target is decided elsewhere) is always guarded or #pragma once: unguarded cycles with
+            # two or more includes per level grow exponentially in the implementation and the model
+            # alike (the linear unguarded self-include is a corpus case)
+            strictly_later = {pstr(x) for x in order[idx + 1:]}
+            risky = any(l[0] == "Inc" and (l[1][0] == "M" or pstr([c for c in l[1][1] if c not in (".", "..", "src", "inc1", "inc2", "sub")]) not in strictly_later
+                                           and pstr(l[1][1][-1:]) not in strictly_later)
+                        for l in body)
+            if risky and style >= 0.6:
+                style = rng.random() * 0.6
             if style < 0.35:
                 g = f"G_{'_'.join(p).replace('.', '_')}"
                 body = [["If", ["NDefd", g]], ["Def", g, "E"]] + body + [["Endif"]]
@@ -210,6 +220,9 @@ def gen_case(rng):
 
 
 CORPUS_EXTRA = [
+    # an unguarded header that includes itself: the implementation hits the recursion limit, the model its include-depth fuel
+    [[[["src", "a.c"], [["Inc", ["Q", ["h.h"]]], ["Code"]]], [["src", "h.h"], [["Code"], ["Inc", ["Q", ["h.h"]]]]]],
+     [["src", "a.c"], [], [], []]],
     # two commands of one platform with opposite -I order: each resolves <h.h> along ITS OWN list
     [[[["inc1", "h.h"], [["Def", "FROM_1", "E"]]], [["inc2", "h.h"], [["Def", "FROM_2", "E"]]],
       [["src", "a.c"], [["Inc", ["A", ["h.h"]]], ["If", ["Defd", "FROM_1"]], ["Code"], ["Endif"]]],
@@ -531,6 +544,11 @@ class C04(Check):
             if sa is None or sa[0] != "Ok" or not self.in_domain(c, sa):
                 # gcc is silent but S rejects: only acceptable for reasons S states (e.g. include depth)
                 if sa is not None and sa[0] == "Ok":
+                    self.oracle_skipped += 1
+                    continue
+                if sa is not None and sa[0] == "Err" and sa[1] == "diagnostic" and any(kinds):
+                    # gcc suppresses the "macro redefined" diagnostic inside headers found through
+                    # -isystem (system headers); S keeps the ISO rule and puts the case outside the domain
                     self.oracle_skipped += 1
                     continue
                 self.oracle_bad.append({"case": c, "spec": sa, "gcc": "accepted silently"})
